@@ -508,7 +508,9 @@ class ExprGen:
         if k < 0.85:
             v = -r.randint(1, 4)
             return ("num", str(v), v)
-        v = r.choice([0.5, 0.25])
+        v = r.choice([0.5, 0.25, -0.5, -0.25, -0.75, 0.75])  # fractional powers of either sign: no value
+        if v < 0 and r.random() < 0.5:
+            return ("par", ("bin", "-", ("num", "0", 0), ("num", repr(-v), -v)))  # the same exponent as a difference
         return ("num", repr(v), v)
 
     def text_pair(self):
